@@ -473,15 +473,17 @@ func init() {
 		}
 		dir := filepath.Join(os.Getenv("VERIF_SCRATCH"), fmt.Sprintf("c10-%d", c.Part))
 		defer os.RemoveAll(dir)
-		// passes 3-5 start from non-initial states (a history that the depth bound alone does not reach):
+		// passes 3-6 start from non-initial states (a history that the depth bound alone does not reach):
 		// 3: a target was moved away and dropped while in_transfer; 4: two targets, each scraped once with
 		// different sample counts; 5: one target scraped three times with counts unlike the coordinator's estimate
 		prefixes := map[int][]c10Op{
 			3: {{Kind: "update", A: []c10T{{1, "j1", ""}}}, {Kind: "update", A: []c10T{{1, "j1", "in_transfer"}}}, {Kind: "update"}},
 			4: {{Kind: "update", A: []c10T{{1, "j1", ""}, {2, "j1", ""}}}, {Kind: "scrape", Hash: 1, N: 8}, {Kind: "scrape", Hash: 2, N: 5}},
 			5: {{Kind: "update", A: []c10T{{1, "j1", ""}}}, {Kind: "scrape", Hash: 1, N: 8}, {Kind: "scrape", Hash: 1, N: 8}, {Kind: "scrape", Hash: 1, N: 5}},
+			// 6: a move that began and was called off (back to normal, the target stays)
+			6: {{Kind: "update", A: []c10T{{1, "j1", ""}}}, {Kind: "update", A: []c10T{{1, "j1", "in_transfer"}}}, {Kind: "update", A: []c10T{{1, "j1", ""}}}},
 		}
-		for pass := 0; pass < 6; pass++ {
+		for pass := 0; pass < 7; pass++ {
 			// passes 0 and 1: the two map-order policies on a fresh directory; pass 2: a directory with a leftover
 			// old-version file
 			policy := pass % 2
